@@ -449,7 +449,77 @@ func ruleArgumentPlumbing(c *Ctx, rule string) {
 		}
 	})
 	if kindPhi == nil {
-		c.unresolvedRoot("number-kind variable of readCommand")
+		// the command header may be parsed by a helper that returns the kind
+		// (readCommandName(dec) (tag, name, numKind, err)): every return of
+		// the helper hands back NumKindUID exactly on the paths with the UID
+		// prefix
+		var helper *ssa.Function
+		idx := -1
+		allInstrs(rc, func(i ssa.Instruction) {
+			ex, ok := i.(*ssa.Extract)
+			if !ok {
+				return
+			}
+			if n, ok := ex.Type().(*types.Named); !ok || n.Obj().Name() != "NumKind" {
+				return
+			}
+			if call, ok := ex.Tuple.(*ssa.Call); ok {
+				if h := staticCallee(call); h != nil && inModule(h) && h.Blocks != nil {
+					helper, idx = h, ex.Index
+				}
+			}
+		})
+		if helper == nil {
+			c.unresolvedRoot("number-kind variable of readCommand")
+			return
+		}
+		hf := mustFlow(helper, facts{}, nil, func(f facts, b *ssa.BasicBlock, s int) facts {
+			for _, a := range edgeAtoms(b, s) {
+				if a.Const != nil {
+					if str, ok := constString(a.Const); ok && str == "UID" {
+						if a.Op == token.EQL {
+							return f.with("uid-prefix")
+						}
+						if a.Op == token.NEQ {
+							return f.with("no-uid-prefix")
+						}
+					}
+				}
+			}
+			return f
+		})
+		var kinds []int64
+		for _, r := range returnsOf(helper) {
+			if k, ok := constInt(unspill(r.Results[idx])); ok {
+				kinds = append(kinds, k)
+			}
+		}
+		var maxK int64
+		for _, k := range kinds {
+			if k > maxK {
+				maxK = k
+			}
+		}
+		okH := len(kinds) == len(returnsOf(helper)) && len(kinds) > 0
+		for _, r := range returnsOf(helper) {
+			k, ok := constInt(unspill(r.Results[idx]))
+			if !ok {
+				okH = false
+				continue
+			}
+			// failure returns (non-nil error) carry no information
+			if nres := len(r.Results); isErrorType(helper.Signature.Results().At(nres-1).Type()) && !isNilConst(unspill(r.Results[nres-1])) {
+				continue
+			}
+			fs, _ := hf.at(r)
+			if k == maxK && !fs.has("uid-prefix") {
+				okH = false
+			}
+			if k != maxK && fs.has("uid-prefix") {
+				okH = false
+			}
+		}
+		c.check(okH, rule, "readCommand: number kind follows the UID prefix", helper.Pos(), "NumKindUID exactly on the path where the command name is UID (in "+fnKey(helper)+")", "the number kind handed to the handlers is not tied to the UID prefix")
 		return
 	}
 	okPhi := len(kindPhi.Edges) == 2
